@@ -453,6 +453,9 @@ package node
 //@   requires[scope_ok] len(symTbl) >= 1 ==> symTbl[len(symTbl)-1] != nil && scopeDense(symTbl[len(symTbl)-1]) && scopeInj(symTbl[len(symTbl)-1])
 //@   assumes[ast] dyntype(a.VarRef) == typeid[Name]()
 //@   modifies mapof(symTbl[len(symTbl)-1])
+// C04: the assigned value is resolved in the scope as it is before the assignment takes effect - `n = n + 5` as the first
+// assignment to n inside a function reads the captured or global n, not the new (still nil) local.
+//@   atcall a.Value.STRewrite(symTbl) with (callee_symTbl SymTbl) requires[value_sees_the_scope_before_the_assignment;C04] len(symTbl) >= 1 ==> (forall k string :: mapdom(symTbl[len(symTbl)-1], k) == old(mapdom(symTbl[len(symTbl)-1], k)))
 //@   ensures[global;C04] len(symTbl) < 1 ==> dyntype(result) == typeid[Assign]() && dyntype(result.(Assign).VarRef) == typeid[Name]() && result.(Assign).VarRef.(Name) == a.VarRef.(Name)
 //@   ensures[slot;C04,C18] len(symTbl) >= 1 ==> dyntype(result) == typeid[Assign]() && dyntype(result.(Assign).VarRef) == typeid[Local]()
 //@       && mapdom(symTbl[len(symTbl)-1], string(a.VarRef.(Name))) && result.(Assign).VarRef.(Local).Ix == symTbl[len(symTbl)-1][string(a.VarRef.(Name))]
